@@ -174,7 +174,12 @@ def hdr_job(name, fields, look, end="", line="GET / HTTP/1.1", lcb_fallback=Fals
     if lcb_fallback:
         defs["LCB_FALLBACK"] = None
     text = line + "".join("\r\n" + n + ":" + v for n, v in fields) + end
+    ncrlf = text.count("\r\n")
     j = {"name": "hdr-" + name, "src": "hdr.c", "defs": defs, "unwind": total + 4, "solver": SOLVER,
+         # the loops whose exit depends on symbolic bytes get their true bounds (symex cannot see that %v is never CR;
+         # the unwinding assertions, decided by the solver under the class assumptions, confirm the bounds)
+         "unwindset": ["http_hdr_val_get_count.0:%d" % (len(fields) + 2), "http_hdr_val_get_ex.0:%d" % (ncrlf + 2),
+                       "http_hdr_val_get_ex.1:%d" % (ncrlf + 2)],
          "shape": "header block template %r (%d bytes), looked-up name template %r, %s" % (
              text, total, look, "real Linux build macros" if not lcb_fallback else "liblcb fallback memmem/mem_cmpi"),
          "desc": "http_hdr_val_get_ex / http_hdr_val_get / http_hdr_val_get_count vs by-construction answer: first match, "
